@@ -284,9 +284,11 @@ template<class T> std::string give_age(T &x, u64 &lived, verif::splitmix &r, uns
     if (!load_age(x, by_load)) return "AG | load-failed " + std::to_string(by_load);
     lived = by_load;
   }
-  for (u64 k(0); k < incs && lived < max32; ++k) { x.inc_age(); ++lived; }
-  return std::string("AG | ") + (use_load ? "load " : "inc ") + std::to_string(lived) + " "
-         + std::to_string(x.age());
+  u64 done(0);
+  for (; done < incs && lived < max32; ++done) { x.inc_age(); ++lived; }
+  // AG | how base incs lived observed
+  return std::string("AG | ") + (use_load ? "load " : "inc ") + std::to_string(use_load ? by_load : 0) + " "
+         + std::to_string(done) + " " + std::to_string(lived) + " " + std::to_string(x.age());
 }
 
 unsigned age_plan(verif::splitmix &r)
@@ -551,7 +553,7 @@ std::string do_dstr(const std::vector<std::string> &t)
 
 // ---- IEEE facts used as hypotheses by the Lean theorems, evaluated on this machine's doubles ---------------------
 // laws <lobits> <hibits> …   for every box: the largest canonical draw u = 1 − 2^-53 and a few others;
-// LW | lo hi | w | u y x | …        w = hi − lo, y = u*w, x = lo + y  (each one rounded operation, volatile)
+// LW | lo hi | w | u y x ; u y x ; …   w = hi − lo, y = u*w, x = lo + y  (each one rounded operation, volatile)
 std::string do_laws(const std::vector<std::string> &t)
 {
   std::string out;
@@ -561,14 +563,16 @@ std::string do_laws(const std::vector<std::string> &t)
     const volatile double lo(verif::from_bits(std::stoull(t[i]))), hi(verif::from_bits(std::stoull(t[i + 1])));
     const volatile double w(hi - lo);
     std::string s("LW | " + std::to_string(verif::bits(lo)) + " " + std::to_string(verif::bits(hi)) + " | "
-                  + std::to_string(verif::bits(w)));
+                  + std::to_string(verif::bits(w)) + " | ");
+    bool first(true);
     for (double u0 : us)
     {
       const volatile double u(u0);
       const volatile double y(u * w);
       const volatile double x(lo + y);
-      s += " | " + std::to_string(verif::bits(u)) + " " + std::to_string(verif::bits(y)) + " "
-           + std::to_string(verif::bits(x));
+      s += std::string(first ? "" : " ; ") + std::to_string(verif::bits(u)) + " " + std::to_string(verif::bits(y))
+           + " " + std::to_string(verif::bits(x));
+      first = false;
     }
     add(out, s);
   }
